@@ -257,6 +257,12 @@ def _explore(ctx, rng, count):
 
 
 def replay(ctx, obj):
+    if obj.get("kind") == "pastified":
+        cuts = obj.get("cuts") or []
+        cuts = {v: ([int(c) for c in cs] if v.startswith("@") else [Fraction(c) for c in cs]) for v, cs in cuts.items()} \
+            if isinstance(cuts, dict) else [Fraction(c) for c in cuts]
+        v = check_pastified(Ctx(ctx.id, ctx.tier, ctx.seed), F.from_proto(obj["formula"]), D.sig_of_rep(obj["signals"]), cuts)
+        return (v is None), (v.what if v else "the pastified monitor agrees with the delayed offline robustness")
     f = F.from_proto(obj["formula"])
     sig = {v: [(Fraction(t), float(x)) for t, x in s] for v, s in obj["signals"].items()}
     cuts = obj.get("cuts", [])
@@ -343,10 +349,97 @@ def check_modular_chunking(case, cuts):
     return None
 
 
+def gen_pastified(rng):
+    """A bounded-future specification inside the fragment the pastifier handles (past operators over future-free operands only):
+    bounded eventually / always over past formulas, next to past formulas (bounded since among them) whose horizon is smaller."""
+    x, y = ("v", "x"), ("v", "y")
+
+    def pred():
+        return ("b", rng.choice(["ge", "le"]), rng.choice([x, y]), ("c", rng.choice([0.0, 1.0, 2.0])))
+
+    def pastf():
+        r = rng.random()
+        a = rng.randint(0, 2)
+        b = a + rng.randint(0, 3)
+        if r < 0.4:
+            return ("tb2", "since", a, b, rng.choice([x, y, pred()]), rng.choice([x, y, pred()]))
+        if r < 0.6:
+            return ("tb1", rng.choice(["once", "hist"]), a, b, rng.choice([x, y, pred()]))
+        if r < 0.7:
+            return ("t2", "since", rng.choice([x, pred()]), rng.choice([y, pred()]))
+        return rng.choice([x, y, pred()])
+
+    def fut():
+        a = rng.randint(0, 2)
+        b = a + rng.randint(1, 3)
+        return ("tb1", rng.choice(["ev", "alw"]), a, b, pastf() if rng.random() < 0.6 else rng.choice([x, y, pred()]))
+    f = ("b", rng.choice(["and", "or", "implies"]), pastf(), fut()) if rng.random() < 0.5 else \
+        ("b", rng.choice(["and", "or"]), fut(), pastf())
+    if rng.random() < 0.3:
+        f = ("b", rng.choice(["and", "or"]), f, fut())
+    vs = F.variables(f)
+    sig = {v: D.gen_signal(rng, 0, nmax=rng.choice([4, 6, 8])) for v in vs}
+    end = max(s_[-1][0] for s_ in sig.values())
+    for v in vs:
+        if sig[v][-1][0] < end:
+            sig[v] = sig[v] + [(end, rng.choice((-1.0, 0.0, 1.0, 2.0)))]
+    return f, sig
+
+
+def check_pastified(ctx, f, sig, cuts):
+    """The pastified online monitor fed in chunks returns the offline robustness of the original, h time units late."""
+    h = D.dense_horizon(f)
+    text, off = D.eval_offline(f, sig)
+    _, on = D.run_online(f, sig, cuts, pastify=True)
+    rep = {"kind": "pastified", "spec": text, "formula": F.to_proto(f), "signals": D.sig_rep(sig), "cuts": cuts_txt(cuts),
+           "horizon": str(h), "impl_offline": off, "impl_online": on}
+    if h is None or off[0] != "ok":
+        return None
+    if on[0] != "ok":
+        return Violation("the pastified dense online monitor raised %r, offline evaluation of the original works: %s" % (on[1:], text),
+                         rep, stream="on-c/pastified")
+    flat = [p for chunk in on[1] for p in chunk]
+    ts = [p[0] for p in flat]
+    if any(b < a for a, b in zip(ts, ts[1:])):
+        return Violation("time stamps of the concatenated output decrease: %r (%s)" % (flat, text), rep, stream="on-c/pastified")
+    a = D.samples_of(flat)
+    b = [(t + h, v) for (t, v) in D.samples_of(off[1])]
+    if not a or not b:
+        return None
+    end = max(s_[-1][0] for s_ in sig.values())
+    lo, hi = max(a[0][0], b[0][0]), min(a[-1][0], end)
+    if lo > hi:
+        return None
+    d = D.step_equal(a, b, lo, hi)
+    if d:
+        return Violation("pastified dense online monitor at t=%s returns %r, the offline robustness of the original at t-%s is %r: %s "
+                         "(chunking %s)" % (d[0], d[1], h, d[2], text, cuts_txt(cuts)), rep, stream="on-c/pastified")
+    ctx.nontrivial.add(("pastified", text, str(rep["signals"]), str(rep["cuts"])))
+    return None
+
+
+def pastified_stream(ctx, rng, count):
+    for _ in range(count):
+        f, sig = gen_pastified(rng)
+        allc = chunkings(rng, sig, 8)
+        for cuts in rng.sample(allc, min(3, len(allc))):
+            ctx.evaluations += 1
+            ctx.count("stream:on-c/pastified")
+            v = check_pastified(ctx, f, sig, cuts)
+            if v is None:
+                ctx.traces_validated += 1
+            else:
+                ctx.violations.append(v)
+                if len(ctx.violations) >= 3:
+                    return
+
+
 def run(ctx):
     explore(ctx, ctx.subrng("on-c"), ctx.budget(560, 3600))
     if not ctx.violations:
         modular_stream(ctx, ctx.subrng("on-c/modular"), ctx.budget(60, 500))
+    if not ctx.violations:
+        pastified_stream(ctx, ctx.subrng("on-c/pastified"), ctx.budget(60, 500))
 
 
 def search(ctx):
